@@ -61,11 +61,11 @@ def parseInt (s : String) : Option Int :=
 
 def parseScores (s : String) : Option (Nat → Int) :=
   if s == "-" then some (fun _ => 0)
-  else ((s.splitOn ",").mapM (fun e => match e.splitOn ":" with
+  else ((s.splitOn ",").mapM (fun (e : String) => match e.splitOn ":" with
       | [p, x] => match p.toNat?, parseInt x with
-        | some p, some x => some (p, x)
+        | some p, some x => some ((p, x) : Nat × Int)
         | _, _ => none
-      | _ => none)).map (fun l => fun p => ((l.find? (fun e => e.1 == p)).map (·.2)).getD 0)
+      | _ => none)).map (fun (l : List (Nat × Int)) => fun p => ((l.find? (fun (e : Nat × Int) => e.1 == p)).map (fun (e : Nat × Int) => e.2)).getD 0)
 
 def parseSubs (s : String) : Option (List (Bool × Nat)) :=
   if s == "-" then some []
@@ -182,10 +182,10 @@ def stripKey (key : String) (tok : String) : Option String :=
 
 def parseNotifs (s : String) : Option (List Notif) :=
   if s == "-" then some []
-  else ((s.splitOn ";").mapM (fun e => match e.splitOn ":" with
+  else ((s.splitOn ";").mapM (fun (e : String) => match e.splitOn ":" with
     | [pc, letters] => match pc.splitOn "@" with
       | [p, c] => match p.toNat?, c.toNat? with
-        | some p, some c => some (letters.toList.map (fun ch => (p, c, ch == 'J')))
+        | some p, some c => some (letters.toList.map (fun ch => ((p, c, ch == 'J') : Notif)))
         | _, _ => none
       | _ => none
     | _ => none)).map List.flatten
@@ -212,13 +212,13 @@ def parsePeers (s : String) : Option (List ImplPeer) :=
 
 def parseRpcs (s : String) : Option (List Rpc) :=
   if s == "-" then some []
-  else ((s.splitOn ";").mapM (fun e => match e.splitOn ":" with
+  else ((s.splitOn ";").mapM (fun (e : String) => match e.splitOn ":" with
     | [p, l] => match p.toNat? with
-      | some p => (l.splitOn ".").mapM (fun r => match r.toList with
-        | 'G' :: t => (String.ofList t).toNat?.map (fun t => (p, t, none))
+      | some p => (l.splitOn ".").mapM (fun (r : String) => match r.toList with
+        | 'G' :: t => (String.ofList t).toNat?.map (fun t => ((p, t, none) : Rpc))
         | 'P' :: rest => match (String.ofList rest).splitOn "b" with
           | [t, b] => match t.toNat?, b.toNat? with
-            | some t, some b => some (p, t, some b)
+            | some t, some b => some ((p, t, some b) : Rpc)
             | _, _ => none
           | _ => none
         | _ => none)
